@@ -796,7 +796,8 @@ def gen_jobs(ctx):
         jobs.append((lf, table, {"expect": "decode", "stream": "fixed-types"}))
     # 1. random layouts in the region the reader is supposed to support
     for _ in range(260 if quick else 14000):
-        add({"width": None, "created_by": rng.choice(["spec-encoder", "parquet-mr version 1.12.3"])})
+        add({"width": None, "created_by": rng.choice(["spec-encoder", "parquet-mr version 1.12.3", "parquet-mr", "", "impala version 2.6.0",
+                                                      "parquet-cpp version 1.5.1-SNAPSHOT", "fastparquet"])})
     # 2. every column type x v1/v2 x optional/required, one chunk, PLAIN and dictionary
     for ct in G.COLTYPES:
         for v2 in (False, True):
